@@ -1050,6 +1050,11 @@ class _TRSTractList:
                 # Other instances of this class have already been
                 # appropriately type-checked.
                 into.extend(obj)
+            elif isinstance(obj, str):
+                # A string would otherwise be iterated over endlessly
+                # (each character being a string itself).
+                raise TypeError(
+                    f"{cls._typeerror_msg} Cannot accept {type(obj)!r}.")
             elif isinstance(obj, cls._ok_iterables):
                 for obj_deeper in obj:
                     into.append(obj_deeper)
